@@ -5,7 +5,6 @@ time), compiles them -> RUN (harness/arrayviews.cxx on a buffer with guard zones
 naive element-wise loop of spec/math/ArrayViews.tla)."""
 import json
 import os
-import subprocess
 from collections import Counter
 from concurrent.futures import ThreadPoolExecutor
 
